@@ -125,6 +125,7 @@ _HEADER_FMT = "<16sBBHHHIIIIIIIII18HI6H"
 assert struct.calcsize(_HEADER_FMT) == 112
 
 _MAX_TYPE_DEPTH = 32
+_TYPE_BUDGET = 1000000   # complex type blobs decoded per top-level blob
 
 
 def _bits(v, pos, width=1):
@@ -163,6 +164,8 @@ class Typelib:
         self._soft = []          # non-fatal problems noticed while decoding
         self._entries = None
         self._blob_cache = {}
+        self._type_budget = _TYPE_BUDGET
+        self._in_blob = False
         self._decode_header()
         self._decode_directory()
         self._decode_sections()
@@ -440,6 +443,8 @@ class Typelib:
 
     def decode_simple_type(self, off, _depth=0):
         """Decode the SimpleTypeBlob stored at file offset ``off``."""
+        if _depth == 0 and not self._in_blob:
+            self._type_budget = _TYPE_BUDGET
         v = self._u32(off, "SimpleTypeBlob")
         # reserved: bits 0-7, reserved2: bits 8-23, pointer: bit 24,
         # reserved3: bits 25-26, tag: bits 27-31
@@ -456,10 +461,17 @@ class Typelib:
     def decode_type_blob(self, off, _depth=0):
         """Decode the complex type blob (Array/Interface/Param/Error) at
         file offset ``off``."""
+        if _depth == 0 and not self._in_blob:
+            self._type_budget = _TYPE_BUDGET
         if _depth > _MAX_TYPE_DEPTH:
             raise TypelibDecodeError(
                 "type nesting deeper than %d at offset %d (cycle?)"
                 % (_MAX_TYPE_DEPTH, off))
+        self._type_budget -= 1
+        if self._type_budget < 0:
+            raise TypelibDecodeError(
+                "more than %d type blobs reachable from one blob (cyclic or "
+                "exploding type graph) at offset %d" % (_TYPE_BUDGET, off))
         if off % 4:
             self._warn("complex type blob offset %d is not 4-byte aligned"
                        % off)
@@ -1017,11 +1029,15 @@ class Typelib:
         if key in self._blob_cache:
             return self._blob_cache[key]
         fn = getattr(self, self._DISPATCH.get(blob_type, "decode_common"))
+        self._type_budget = _TYPE_BUDGET
+        self._in_blob = True
         try:
             d = fn(off)
         except RecursionError:
             raise TypelibDecodeError("recursion limit hit decoding blob at %d"
                                      % off)
+        finally:
+            self._in_blob = False
         d["kind"] = BLOB_TYPE_NAMES.get(blob_type, "unknown")
         self._blob_cache[key] = d
         return d
@@ -1118,8 +1134,10 @@ class Typelib:
                          "0..n_local_entries-1")
 
         # entries and their blobs
-        saved_soft = self._soft
-        self._soft = []
+        # decode afresh so that the non-fatal findings of the decoders are
+        # collected here even if the blobs were decoded before
+        saved_soft, saved_cache = self._soft, self._blob_cache
+        self._soft, self._blob_cache = [], {}
         try:
             for r in self._dir:
                 idx = r["index"]
@@ -1174,7 +1192,7 @@ class Typelib:
                 self._check_nested(blob, "entry %d (%s)" % (idx, name), p)
             p.extend(self._soft)
         finally:
-            self._soft = saved_soft
+            self._soft, self._blob_cache = saved_soft, saved_cache
         return p
 
     def _check_nested(self, blob, where, p):
